@@ -38,7 +38,7 @@ CHECKS = {
     "C08": dict(cat="model_checking", ref="DESIGN.md 5/C08",
                 text="The model accumulates the events of the successful calls of a transaction and delivers them on Commit only; replay registers eight listener styles on "
                      "three stores and compares the multiset of (store, type, id, state) each style received with the model, per transaction.",
-                technique="TLA+ transaction/event model + replay with listener logs compared per commit"),
+                technique="TLA+ transaction/event model + replay with listener logs compared per commit + recorded executions (events per commit line) validated by TLC (StoreTrace.tla)"),
     "C15": dict(cat="model_checking", ref="DESIGN.md 5/C15",
                 text="Child data is a separate model variable; calls are routed through either store as in the code; TLC checks child-within-parent and shared-index "
                      "invariants, replay compares what FindById/LoadById/IsEntityPresent/IterateIds/IterateValidIds/QueryIds show through the child store (plain and Extended()).",
